@@ -329,6 +329,16 @@ func (fv *FV) specIdent(env *Env, name string) Term {
 	case "nil":
 		return nilTerm
 	case "zero":
+		// a Go variable called zero (slice.LCSFunc's sentinel) shadows the spec keyword
+		if env.scopePos.IsValid() && env.scopePkg != nil {
+			if sc := env.scopePkg.Scope().Innermost(env.scopePos); sc != nil {
+				if _, obj := sc.LookupParent(name, env.scopePos); obj != nil {
+					if t, ok := env.st.vars[obj]; ok {
+						return t
+					}
+				}
+			}
+		}
 		return Term{S: "zero?", Sort: "?"}
 	case "result":
 		if len(env.results) == 1 {
